@@ -20,6 +20,9 @@ package main
 //	                      repetition, and which of the bytes read enter the secret.
 //	c19.retry <script> <k>   (c19retry.go) a scripted key-exchange server answers set_client_DH_params with
 //	                      dh_gen_retry / dh_gen_fail / dh_gen_ok: every g_b sent comes from a fresh full-width draw.
+//	c19.fault <where> <k> <mode> <seed>   (c19fault.go) the OS source fails / is at its end / delivers half / trickles
+//	                      from its k-th Read on, during a complete key exchange and under each generator: whatever
+//	                      secret is still emitted is backed by, and a function of, the bytes the source delivered.
 //	c19.hist <fn> <prelude> <n>   (c19hist.go) unusual calls first, then ordinary draws: bytes read from the OS
 //	                      source per draw, range and repetition of the values.
 //
@@ -388,6 +391,9 @@ func c19Exec(op []string) string {
 	if out, ok := c19RetryExec(op); ok { // c19retry.go: dh_gen_retry / dh_gen_fail answers
 		return out
 	}
+	if out, ok := c19FaultExec(op); ok { // c19fault.go: the OS source fails or runs short at its k-th Read
+		return out
+	}
 	line := strings.Join(op, " ")
 	num := func(s string) (int64, bool) {
 		v, err := strconv.ParseUint(s, 10, 62)
@@ -443,6 +449,11 @@ func c19Judge(op []string, out string) string {
 			return why
 		}
 	}
+	if len(op) > 0 && op[0] == "c19.fault" {
+		if why := c19FaultJudge(op, out); why != "" {
+			return why
+		}
+	}
 	switch {
 	case out == "predictable":
 		return "key-agreement secret is reproducible: " + c19Detail[line]
@@ -461,6 +472,7 @@ func c19Gen(g *G) {
 	// histories first: an operation of this kind that fails then fails on its own, in a fresh process too
 	c19HistGen(g)
 	c19RetryGen(g)
+	c19FaultGen(g)
 	c19PeerGen(g)
 	seeds := []uint64{1}
 	for i := 0; i < g.N(1, 40); i++ {
